@@ -18,14 +18,14 @@ def scenarios(rng, tier):
                   iftype=rng.choice(B32 + [6, 71, rng.randrange(2 ** 32)]), ipv4=rng.choice(B32 + [0xC0A80001, rng.randrange(2 ** 32)]),
                   ipv6=bytes(rng.randrange(256) for _ in range(16)), speed=rng.choice(B32 + [10000000, rng.randrange(2 ** 32)]))
         if wifi:
-            kw.update(wifi=rng.choice([0, 1, 2, 3, 255]), bssid=bytes(rng.randrange(256) for _ in range(6)), ssid=bytes(rng.randrange(1, 256) for _ in range(k % 41)),
+            kw.update(wifi=rng.choice([0, 1, 2, 3, 255]), bssid=bytes(rng.randrange(256) for _ in range(6)), ssid=bytes((rng.randrange(1, 256) if k % 5 else rng.choice([0, rng.randrange(256)])) for _ in range(k % 41)),
                       rate=rng.choice([0, 1, 0xFF, 0x100, 108, 0xFFFF, rng.randrange(65536)]), rssi=rng.choice([-128, -127, -70, -1, 0, 1, 127]))
             if rng.random() < 0.5: kw['phy'] = rng.choice([1, 2, 7])
         fails = [f for f in ('iftypefail', 'ipv4fail', 'ipv6fail', 'speedfail', 'bssidfail', 'ratefail', 'rssifail', 'macfail') if rng.random() < (0.15 if k % 3 == 0 else 0.25 if k % 4 == 2 else 0.0)]
         for f in fails: kw[f] = 1
         cfg = Cfg(0, **kw)
         s.start('attr_%d' % k); s.lines.append(cfg.line())
-        s.lines.append(gline(host=bytes(rng.randrange(1, 256) for _ in range((k * 7) % 41)), retfull=rng.randrange(2)))
+        s.lines.append(gline(host=bytes((rng.randrange(1, 256) if (k % 3 or i_ % 2 == 0) else 0) for i_ in range((k * 7) % 41)), retfull=rng.randrange(2)))   # every third name UCS-2 like: zero bytes inside
         s.frame(0, discover(mac(1), tos=rng.choice([0, 1]), gen=rng.randrange(65536)))
         if k % 4 == 1:
             # earlier traffic must leave no trace in a later Hello: observations, a QueryResp with several descriptors, large-TLV
@@ -45,9 +45,10 @@ def scenarios(rng, tier):
             kw2 = dict(kw); kw2.update(ipv4=rng.randrange(2 ** 32), speed=rng.choice(B32), flags=rng.randrange(65536), ipv6=bytes(rng.randrange(256) for _ in range(16)))
             if wifi: kw2.update(rssi=rng.choice([-128, -50, 0, 127]), rate=rng.randrange(65536), bssid=bytes(rng.randrange(256) for _ in range(6)))
             s.lines.append(Cfg(0, **kw2).line())
-            s.lines.append(gline(host=bytes(rng.randrange(1, 256) for _ in range(rng.randrange(41))), retfull=rng.randrange(2)))
+            s.lines.append(gline(host=bytes(rng.choice([0, 0, rng.randrange(256), rng.randrange(1, 256)]) for _ in range(rng.randrange(41))), retfull=rng.randrange(2)))
             s.frame(0, discover(mac(1), tos=rng.choice([0, 1]), gen=rng.randrange(65536)))
-    return [(s.text(), {})]
+    oth = other_iface_variants(s.text(), rng, 10 if tier == 'quick' else 150)
+    return [(s.text(), {}), (oth, {'family': 'other-interface'})]
 def project(blk, name, meta):
     # the decoded property SET of the Hello (the order of properties is not prescribed)
     if blk.fault: return ('fault',)
@@ -64,7 +65,7 @@ def oracle(name, ib, mb, meta):
     for i, b in enumerate(ib):
         if b.op.startswith('cfg 0'): kv = dict(t.split('=', 1) for t in b.op.split()[2:])
         elif b.op.startswith('cfg g'): g = dict(t.split('=', 1) for t in b.op.split()[2:])
-        if not b.op.startswith('frame') or b.fault: continue
+        if not b.op.startswith('frame 0 ') or b.fault: continue
         dd = frame_hdr(b)
         if not (dd and dd['tos'] in (0, 1) and dd['opc'] == 0): continue      # other traffic of the session: not a Hello
         sn = sends_of(b)
